@@ -70,9 +70,12 @@ def r1_factory_plumbing(chk: Check) -> None:
     bv = kwarg(cc[0], "body") if cc else None
     chk.decide(bool(cc) and isinstance(bv, ast.Name) and any((m_ := pmatch("draw($s)", v)) is not None and name_of(m_, "s") in strat_vars for v in local_value(fn, bv.id)), "C20.R1", fn, "Case(body=<the drawn document>)", "the case does not carry the generated document", fn.loc())
     # no incomplete memoisation of the strategy
+    type_name = "type names are unique within a GraphQL schema: keying by the operation type's name identifies the type"
     label_covers = "an operation's label is `<root type name>.<field name>` (GraphQLSchema._build_operation): keying by operation.label covers both"
     shared.memo_key_rule(chk, "C20.R1b", [f for f in P.module(GQL).functions.values()],
-                         {("graphql_cases", "operation.definition.field_name"): label_covers, ("graphql_cases", "operation.definition.root_type"): label_covers},
+                         {("graphql_cases", "operation.definition.field_name"): label_covers, ("graphql_cases", "operation.definition.root_type"): label_covers,
+                          ("_init_operation", "self._operation_type"): (type_name, "self._operation_type.name"), ("_init_operation", "self._operation_type.fields"): (type_name, "self._operation_type.name"),
+                          ("_init_operation", "self._root_type"): ("root type and operation type are paired when the FieldMap is built (_get_operation_map); " + type_name, "self._operation_type.name")},
                          "MEMO-KEY: if GraphQL strategies / operations are cached, the key covers every setting and definition field they are built from")
     # a strategy that may come from a lookup instead of the factory must be keyed completely: def-use of `strategy`
     sv = [v for sv_ in strat_vars for _, v in assignments_to(fn.node, sv_) if v is not None]
